@@ -1591,16 +1591,27 @@ func (h *fsmHandler) opensent(ctx context.Context) (bgp.FSMState, *fsmStateReaso
 			return bgp.BGP_FSM_OPENCONFIRM, newfsmStateReason(fsmOpenMsgReceived, nil, nil)
 		case result := <-fsm.outgoingConnCh:
 			incomingConn := fsm.conn
-			fsm.conn = result.conn
-			fsm.lock.Lock()
-			fsm.recvOpen = result.open
-			fsm.lock.Unlock()
 
 			var e *fsmMsg
 			select {
 			case e = <-recvChan:
 			default:
 			}
+			if e == nil && !fsm.isDominant(result.open.Body.(*bgp.BGPOpen)) {
+				// no OPEN on the incoming connection yet, but the peer's BGP
+				// Identifier is known from the outgoing one: the connection the
+				// peer initiated is the one to keep (and the one the peer keeps).
+				// Go on waiting for its OPEN.
+				fsm.logger.Debug("collision detected: dominant on passive side, close the outgoing connection")
+				result.conn.Close()
+				continue
+			}
+
+			fsm.conn = result.conn
+			fsm.lock.Lock()
+			fsm.recvOpen = result.open
+			fsm.lock.Unlock()
+
 			if e != nil {
 				nextState, _, _ := fsm.handleOpen(e)
 				if nextState == bgp.BGP_FSM_OPENCONFIRM {
